@@ -1,5 +1,4 @@
-\* design level: every increasing xi sequence over 1..MaxXi of length 1..MaxN, three wavelength
-\* patterns, three acceptance classes, six inputs, two coefficient pairs
+\* vacuity control: with the acceptance test inverted the mask invariants MUST fail
 SPECIFICATION Spec
 CONSTANTS
   MaxXi = 3
